@@ -552,4 +552,232 @@ Section Run.
     Theorem RB_step e (s : hstate) g x s' o : RB s g -> hstep e s x = (s', o) -> RB s' (g ++ ev_log s x).
     Proof. intros HR H. eapply (hstep_R RB (fun _ => True) RB_q RB_hs); eauto. Qed.
   End Invariants.
+
+  (* ---------- part 4: facts about the log of ONE event ---------- *)
+  Notation carried := (carried SIG parse).
+
+  Lemma lwalk_in now ms : forall (s : hstate) s1 ty m, In (s1, ty, m) (lwalk s now ms) ->
+    exists w, In w ms /\ w_type w = ty /\ parse (w_payload w) = m.
+  Proof.
+    induction ms as [|w r IH]; intros s s1 ty m Hin; [destruct Hin|].
+    cbn [HsNet.lwalk] in Hin.
+    destruct (bf_insert (c_bf_msg (h_conn s)) (w_seq w)) as [bf|].
+    2:{ destruct (IH _ _ _ _ Hin) as (w' & I' & R'). exists w'. split; [right; exact I'|exact R']. }
+    destruct (hmsg1 s now w bf) as [s2 o2].
+    assert (Here : In (s1, ty, m) (if is_hs (w_type w) then [(with_bf s bf, w_type w, parse (w_payload w))] else []) ->
+                   exists w', In w' (w :: r) /\ w_type w' = ty /\ parse (w_payload w') = m).
+    { destruct (is_hs (w_type w)); [|intros []]. intros [E|[]]. inversion E; subst. exists w. split; [left; reflexivity|auto]. }
+    destruct (raised o2); [auto|].
+    apply in_app_or in Hin as [Hin|Hin]; [auto|].
+    destruct (IH _ _ _ _ Hin) as (w' & I' & R'). exists w'. split; [right; exact I'|exact R'].
+  Qed.
+
+  (* the datagram of the event opens under the key held at arrival and carries the logged message;
+     a keyless endpoint logs no challenge response *)
+  Lemma ev_log_carried (s : hstate) x s1 ty m : In (s1, ty, m) (ev_log s x) ->
+    exists d, hev_dgram x = Some d /\ carried (d, c_key (h_conn s), (s1, ty, m)) /\
+              (c_key (h_conn s) = None -> ty <> CHALLENGE_RESP).
+  Proof.
+    assert (RL : forall (s0 : hstate) now d, In (s1, ty, m) (recv_log s0 now d) ->
+              carried (d, c_key (h_conn s0), (s1, ty, m)) /\ (c_key (h_conn s0) = None -> ty <> CHALLENGE_RESP)).
+    { intros s0 now d Hin. unfold HsNet.recv_log in Hin.
+      destruct (keyless_refuses (h_conn s0) (d_hdr d)) eqn:KR; [destruct Hin|].
+      destruct (open_dgram (c_key (h_conn s0)) d) as [ms|] eqn:OD; [|destruct Hin].
+      destruct (bf_insert (c_bf_pkt (h_conn s0)) (h_seq (d_hdr d))) as [bf|]; [|destruct Hin].
+      destruct (handle_ack_bits _ (d_hdr d)) as [c1 o1].
+      destruct (lwalk_in _ _ _ _ _ _ Hin) as (w & Iw & Tw & Pw).
+      split; [exists ms, w; auto|].
+      intros K0 ->. rewrite K0 in OD. unfold keyless_refuses in KR. rewrite K0 in KR. cbn in KR.
+      pose proof (keyless_single_hello _ _ KR OD) as NC. unfold no_chal in NC. rewrite Forall_forall in NC.
+      exact (NC w Iw Tw). }
+    destruct x as [now d|now [| |d]|now hello|x]; cbn [HsNet.ev_log HsNet.hev_dgram]; try (intros []).
+    - intros Hin. exists d. split; [reflexivity|]. apply RL in Hin. exact Hin.
+    - pose proof (client_update_qrel (h_conn s) now) as (Qk & _).
+      destruct (status_eqb _ DROPPED); [intros []|]. intros Hin. exists d. split; [reflexivity|].
+      apply RL in Hin. cbn [h_conn] in Hin. change (h_conn (s <| h_conn := fst (client_update (h_conn s) now) |>))
+        with (fst (client_update (h_conn s) now)) in Hin. rewrite Qk in Hin. exact Hin.
+  Qed.
+
+  (* an endpoint that holds a key when the event starts holds one at every logged message *)
+  Lemma ev_log_keyed e (s : hstate) x s' o : c_key (h_conn s) <> None -> hstep e s x = (s', o) ->
+    forall s1 ty m, In (s1, ty, m) (ev_log s x) -> c_key (h_conn s1) <> None.
+  Proof.
+    intros K H.
+    pose (Rk := fun (s : hstate) (g : list hentry) =>
+                  c_key (h_conn s) <> None /\ forall s1 ty m, In (s1, ty, m) g -> c_key (h_conn s1) <> None).
+    assert (X : Rk s' ([] ++ ev_log s x)).
+    { eapply (hstep_R Rk (fun _ => True)); [| |auto| |exact H].
+      - intros s0 g c' (Qk & _) (A & B). split; [cbn; congruence|exact B].
+      - intros s0 g ty hm c1 o1 _ _ (A & B) St. split.
+        + rewrite note_conn. unfold Handshake.hs_step in St. apply recv_handshake_facts in St as (_ & F & _). auto.
+        + intros s1 ty1 m1 Hin. apply in_app_or in Hin as [Hin|[Hin|[]]]; [eapply B; eauto|]. inversion Hin; subst. exact A.
+      - split; [exact K|intros ? ? ? []]. }
+    destruct X as [_ X]. exact X.
+  Qed.
+
+  Lemma map_snd_tag (s : hstate) x : map snd (tag_log s x) = ev_log s x.
+  Proof.
+    unfold HsNet.tag_log. destruct (hev_dgram x) eqn:E.
+    - rewrite map_map. cbn. apply map_id.
+    - rewrite ev_log_nil; auto.
+  Qed.
+
+  Lemma in_tag_log (s : hstate) x d k0 en : In (d, k0, en) (tag_log s x) ->
+    hev_dgram x = Some d /\ k0 = c_key (h_conn s) /\ In en (ev_log s x).
+  Proof.
+    unfold HsNet.tag_log. destruct (hev_dgram x) as [d'|]; [|intros []].
+    intros Hin. apply in_map_iff in Hin as (en' & E & I'). inversion E; subst. auto.
+  Qed.
+
+  Lemma sealed_dg_of o d k sh p : In d (flat_map dg_of o) -> d_body d = Sealed k sh p ->
+    In (OEmit (d_hdr d) (Some k) p) o.
+  Proof.
+    intros Hin Hb. apply in_flat_map in Hin as (x & Hx & Hd).
+    destruct x as [h [k'|] p'| | | | | |]; cbn in Hd; try destruct Hd as [<-|[]]; try destruct Hd.
+    - cbn in Hb. inversion Hb; subst. exact Hx.
+    - cbn in Hb. discriminate.
+  Qed.
+
+  (* ---------- part 5: the joint invariants ---------- *)
+  Notation signed_log := (signed_log SIG pub).
+  Notation genuine_payloads := (genuine_payloads SIG pub).
+  Notation dy_ev := (dy_ev SIG pub sign parse).
+  Notation dy_run := (dy_run SIG pub sign verify dh kdf parse ser_shello ser_chal).
+  Notation sealed_ev := (sealed_ev SIG).
+  Notation sealed_run := (sealed_run SIG pub sign verify dh kdf parse ser_shello ser_chal).
+  Notation hnet0 := (hnet0 SIG).
+
+  Lemma signed_log_slog (g : list jentry) : signed_log g = slog (map snd g).
+  Proof. unfold HsNet.signed_log, slog. rewrite flat_map_concat_map, flat_map_concat_map, map_map. reflexivity. Qed.
+
+  Lemma jrun_snoc e (n : hnet) vs v : jrun e n (vs ++ [v]) = jstep e (jrun e n vs) v.
+  Proof. unfold HsNet.jrun. rewrite fold_left_app. reflexivity. Qed.
+
+  (* --- B alone: EVERY history, whatever the client and the attacker do --- *)
+  Section ServerSide.
+    Variables (b root : Z).
+
+    (* per logged message of B *)
+    Definition entryB (j : jentry) : Prop :=
+      carried j /\
+      (connects (snd j) = true ->
+         exists k, snd (fst j) = Some k /\ authentic k (fst (fst j)) /\ c_key (h_conn (fst (fst (snd j)))) <> None).
+
+    Record JB_inv (n : hnet) : Prop := {
+      jb_R : RB b root (jB n) (map snd (gB n));
+      jb_E : Forall entryB (gB n) }.
+
+    Lemma JB_step e (n : hnet) v : JB_inv n -> JB_inv (jstep e n v).
+    Proof.
+      intros [HR HE]. destruct v as [x|x]; cbn [HsNet.jstep].
+      - destruct (hstep e (jA n) x) as [a' o]. constructor; cbn; auto.
+      - destruct (hstep e (jB n) x) as [b' o] eqn:H. constructor; cbn.
+        + rewrite map_app, map_snd_tag. eapply RB_step; eauto.
+        + apply Forall_app. split; [exact HE|]. apply Forall_forall. intros [[d k0] [[s1 ty] m]] Hin.
+          apply in_tag_log in Hin as (Hd & -> & Hin).
+          destruct (ev_log_carried _ _ _ _ _ Hin) as (d' & Hd' & Car & NoCh). assert (d' = d) as -> by congruence.
+          split; [exact Car|]. cbn [fst snd]. intros Cn.
+          (* a connecting entry is a challenge response *)
+          assert (RB' : RB b root b' (map snd (gB n) ++ ev_log (jB n) x)) by (eapply RB_step; eauto).
+          destruct RB' as (_ & _ & Hist & _).
+          apply in_split in Hin as (l1 & l2 & El). rewrite El, app_assoc in Hist.
+          destruct (Hist _ _ _ _ _ eq_refl) as (_ & _ & CC). destruct (CC Cn) as (-> & _ & _).
+          destruct (c_key (h_conn (jB n))) as [k|] eqn:K0; [|destruct (NoCh eq_refl eq_refl)].
+          exists k. split; [reflexivity|]. split.
+          * destruct Car as (ms & w & OD & _). eapply open_keyed_authentic; eauto.
+          * eapply (ev_log_keyed e (jB n) x b' o); [rewrite K0; discriminate|exact H|].
+            rewrite El. apply in_or_app. right. left. reflexivity.
+    Qed.
+
+    Lemma JB_init a pinned rand : JB_inv (hnet0 a pinned b root rand).
+    Proof.
+      constructor; cbn; [|constructor].
+      split; [repeat split; auto|]. split; [reflexivity|]. split; [|split].
+      - intros g1 s1 ty m g2 E. destruct g1; discriminate E.
+      - cbn. discriminate.
+      - intros _ en [].
+    Qed.
+
+    Lemma JB_run e vs : forall (n : hnet), JB_inv n -> JB_inv (jrun e n vs).
+    Proof.
+      induction vs as [|v r IH]; intros n H; [exact H|]. cbn. apply IH. apply JB_step. exact H.
+    Qed.
+  End ServerSide.
+
+  (* --- both endpoints, Dolev-Yao hypothesis on the hellos presented to the client --- *)
+  Section Both.
+    Hypothesis verify_sign : forall sk s m, verify (pub sk) s m = true <-> s = sign sk m.
+    Variables (a b root : Z) (akeys : list Z) (other : list sh_payload).
+    Hypothesis root_secret : ~ In root akeys.
+
+    Record JA_inv (n : hnet) : Prop := {
+      ja_R : RA a root (genuine_payloads other n) (jA n) (map snd (gA n));
+      ja_C : Forall carried (gA n);
+      (* whatever A has put on the wire sealed was sealed under a key A had adopted *)
+      ja_W : forall d k sh p, In d (jAB n) -> d_body d = Sealed k sh p ->
+               exists en rp pl sg, In en (map snd (gA n)) /\ adopts en rp pl sg /\ k = client_key a pl }.
+
+    Lemma JA_step e (n : hnet) v : JA_inv n -> dy_ev root akeys other n v -> JA_inv (jstep e n v).
+    Proof.
+      intros [HR HC HW] DY. destruct v as [x|x]; cbn [HsNet.jstep].
+      - destruct (hstep e (jA n) x) as [a' o] eqn:H.
+        assert (R' : RA a root (genuine_payloads other n) a' (map snd (gA n) ++ ev_log (jA n) x)).
+        { eapply (RA_step verify_sign a root akeys root_secret); [|exact HR|exact H].
+          intros d m Hd Hm. exact (DY d m Hd Hm). }
+        constructor; cbn.
+        + rewrite map_app, map_snd_tag. exact R'.
+        + apply Forall_app. split; [exact HC|]. apply Forall_forall. intros [[d k0] [[s1 ty] m]] Hin.
+          apply in_tag_log in Hin as (Hd & -> & Hin).
+          destruct (ev_log_carried _ _ _ _ _ Hin) as (d' & Hd' & Car & _). assert (d' = d) as -> by congruence. exact Car.
+        + intros d k sh p Hin Hb. rewrite map_app, map_snd_tag. apply in_app_or in Hin as [Hin|Hin].
+          * destruct (HW _ _ _ _ Hin Hb) as (en & rp & pl & sg & I1 & A1 & K1).
+            exists en, rp, pl, sg. split; [apply in_or_app; auto|auto].
+          * pose proof (sealed_dg_of _ _ _ _ _ Hin Hb) as Em.
+            pose proof (hstep_is_step_proof _ _ _ _ _ _ _ _ _ _ _ _ _ _ H) as St.
+            pose proof (step_emit_key _ _ _ _ _ _ _ _ St Em) as Ek.
+            destruct (ptype_eqb (h_type (d_hdr d)) SERVER_HELLO); [discriminate Ek|].
+            destruct R' as (_ & _ & _ & AK).
+            destruct (h_adopted a') as [[[rp pl] sg]|].
+            -- destruct AK as ((en & I1 & A1) & K1 & _). exists en, rp, pl, sg. split; [exact I1|]. split; [exact A1|]. congruence.
+            -- destruct AK as (K1 & _). congruence.
+      - destruct (hstep e (jB n) x) as [b' o] eqn:H. constructor; cbn; auto.
+        eapply RA_mono; [|exact HR].
+        unfold HsNet.genuine_payloads. cbn. intros p Hin. apply in_app_or in Hin as [Hin|Hin]; apply in_or_app; [left; exact Hin|right].
+        unfold HsNet.signed_log in *. rewrite flat_map_app, map_app. apply in_or_app. left. exact Hin.
+    Qed.
+
+    Lemma JA_init rand : JA_inv (hnet0 a (Some (pub root)) b root rand).
+    Proof.
+      constructor; cbn; [|constructor|intros ? ? ? ? []].
+      split; [repeat split; auto|]. split; [intros ? ? ? []|]. split; [intros ? ? ? ? []|].
+      cbn. split; [reflexivity|]. split; [discriminate|intros ? ? ? ? []].
+    Qed.
+
+    Lemma JA_run e vs : forall (n : hnet), JA_inv n -> dy_run e root akeys other n vs -> JA_inv (jrun e n vs).
+    Proof.
+      induction vs as [|v r IH]; intros n H D; [exact H|]. destruct D as [D1 D2]. cbn. apply IH; [|exact D2].
+      apply JA_step; auto.
+    Qed.
+
+    (* --- with the AES-GCM hypothesis for B: what B opened under a key is on A's wire --- *)
+    Definition SB_inv (n : hnet) : Prop := forall d k en, In (d, Some k, en) (gB n) -> In d (jAB n).
+
+    Lemma SB_step e (n : hnet) v : SB_inv n -> sealed_ev n v -> SB_inv (jstep e n v).
+    Proof.
+      intros HS SE. destruct v as [x|x]; cbn [HsNet.jstep].
+      - destruct (hstep e (jA n) x) as [a' o]. intros d k en Hin. cbn in *. apply in_or_app. left. eapply HS; eauto.
+      - destruct (hstep e (jB n) x) as [b' o]. intros d k [[s1 ty] m] Hin. cbn in *.
+        apply in_app_or in Hin as [Hin|Hin]; [eapply HS; eauto|].
+        apply in_tag_log in Hin as (Hd & K0 & Hin).
+        destruct (ev_log_carried _ _ _ _ _ Hin) as (d' & Hd' & (ms & w & OD & _) & _).
+        assert (d' = d) as -> by congruence.
+        eapply SE; [exact Hd|rewrite <- K0; discriminate|exact OD].
+    Qed.
+
+    Lemma SB_run e vs : forall (n : hnet), SB_inv n -> sealed_run e n vs -> SB_inv (jrun e n vs).
+    Proof.
+      induction vs as [|v r IH]; intros n H D; [exact H|]. destruct D as [D1 D2]. cbn. apply IH; [|exact D2].
+      apply SB_step; auto.
+    Qed.
+  End Both.
 End Run.
